@@ -367,5 +367,18 @@ def bounded(cls):
       if self._vf_top_calls > TOP_CALL_LIMIT:
         raise HarnessBound("top() call bound exceeded")
       return super().top(*args)
+  if hasattr(cls, "signal_callback"):
+    # charts assembled from templates never pass through the generated handlers: count the
+    # look-ups their state methods make, so that a search that goes round in circles is cut short
+    from contextlib import contextmanager
+
+    @contextmanager
+    def signal_callback(self, e, name):
+      self._vf_lookups = getattr(self, "_vf_lookups", 0) + 1
+      if self._vf_lookups > 30000:
+        raise HarnessBound("callback look-up bound exceeded")
+      with cls.signal_callback(self, e, name) as fn:
+        yield fn
+    Bounded.signal_callback = signal_callback
   Bounded.__name__ = "Bounded" + cls.__name__
   return Bounded
